@@ -89,6 +89,28 @@ func suiteMatchDoc(tier string, seed uint64, model string) *Report {
 		}
 		cases = append(cases, cs{ts, d, known})
 	}
+	// long arrays under a trailing filter: more than ten selected locations, so that any ordering
+	// by text ([10] before [2]) differs from document order
+	for i := 0; i < n/40; i++ {
+		m := 11 + r.Intn(5)
+		arr := make([]any, m)
+		for j := range arr {
+			if r.Chance(50) {
+				arr[j] = int64(r.Intn(5))
+			} else {
+				arr[j] = map[string]any{"a": int64(r.Intn(4))}
+			}
+		}
+		flt := Frag{Kind: "f", Eq: &Eqn{Kind: "bin", Op: "exists", A: &Eqn{Kind: "p", Path: []Frag{{Kind: "A"}}}, B: &Eqn{Kind: "v", Const: true}}}
+		if r.Chance(50) {
+			flt = Frag{Kind: "f", Eq: &Eqn{Kind: "bin", Op: "gt", A: &Eqn{Kind: "p", Path: []Frag{{Kind: "A"}}}, B: &Eqn{Kind: "v", Const: int64(0)}}}
+		}
+		if r.Chance(50) {
+			cases = append(cases, cs{[][]Frag{{{Kind: "R"}, flt}}, arr, false})
+		} else {
+			cases = append(cases, cs{[][]Frag{{{Kind: "R"}, {Kind: "c", Key: "a"}, flt}}, map[string]any{"a": arr, "b": int64(1)}, false})
+		}
+	}
 	var reqs []string
 	for _, c := range cases {
 		tt := make([]string, len(c.targets))
